@@ -594,6 +594,23 @@ func init() {
 	intrinsics[zz+"Implies"] = func(st *pstate, fr *frame, fn *ssa.Function, args []value) value {
 		return mkBool(st.nameBool(tOr(tNot(boolTerm(args[0])), boolTerm(args[1]))))
 	}
+	// Budget(label, steps): the code up to BudgetEnd() may execute at most `steps` SSA instructions on any
+	// path; exceeding it is a violation of assertion `label` (the path ends there - no need to run an
+	// exponential computation to completion).
+	intrinsics[zz+"Budget"] = func(st *pstate, fr *frame, fn *ssa.Function, args []value) value {
+		st.budgetLabel = goStr(args[0])
+		st.budget = st.steps + goInt(args[1])
+		st.budgetStart = st.steps
+		st.budgetSite = ""
+		if fr.caller != nil {
+			st.budgetSite = fr.caller.fn.Name()
+		}
+		return nil
+	}
+	intrinsics[zz+"BudgetEnd"] = func(st *pstate, fr *frame, fn *ssa.Function, args []value) value {
+		st.budget = 0
+		return st.steps - st.budgetStart
+	}
 	intrinsics[zz+"Failed"] = func(st *pstate, fr *frame, fn *ssa.Function, args []value) value { return false }
 	intrinsics[zz+"Skip"] = func(st *pstate, fr *frame, fn *ssa.Function, args []value) value { return nil }
 	intrinsics[zz+"FreezeNative"] = func(st *pstate, fr *frame, fn *ssa.Function, args []value) value { return nil }
